@@ -72,6 +72,15 @@ theorem range'_snoc (a k : Nat) : List.range' a (k + 1) = List.range' a k ++ [a 
   have := @List.range'_concat 1 a k
   simpa using this
 
+theorem range'_split (a m n : Nat) : List.range' a (m + n) = List.range' a m ++ List.range' (a + m) n := by
+  induction m generalizing a with
+  | zero => simp
+  | succ m ih =>
+    have e : m + 1 + n = (m + n) + 1 := by omega
+    rw [e, List.range'_succ, List.range'_succ, ih (a + 1), List.cons_append]
+    have e2 : a + 1 + m = a + (m + 1) := by omega
+    rw [e2]
+
 theorem filter_range_window (l : List (WalFile ν κ)) (lo hi : Nat)
     (h : ∀ f ∈ l, lo ≤ f.id ∧ f.id < hi) :
     l.filter (fun f => !(decide (lo ≤ f.id) && decide (f.id < hi))) = [] := by
